@@ -22,7 +22,7 @@ claim("C04", "Seeded search with a heavy share of duplicated and stale requests 
 claim("C06", "Seeded search over populated queues and every modify shape; refinement against the reference engine (reduce-in-place vs remove-and-re-enter, < vs <= at equal volume) plus model-free identity checks, drain probe reveals the queue order.",
       NOTE_COMMON, "deterministic simulation: refinement against reference engine, drain probe", "DESIGN.md §4 C06")
 claim("C12", "Fault injection of invalid creation / re-price requests at random points of histories through OrderBook and Market; Ok <=> on grid, complete-snapshot equality around every rejection, dense next id, all resting prices on the grid after every operation, per-level data accounts for resting volume.",
-      NOTE_COMMON + " A fifth of the runs go through Env / MarketEnv (W3 world). Both ends of the price domain appear as creation requests (created only) and 2^32-1 as an off-grid re-price request.", "deterministic simulation: invalid-request fault injection with snapshot comparison", "DESIGN.md §4 C12")
+      NOTE_COMMON + " A fifth of the runs go through Env / MarketEnv (W3 world). Both ends of the price domain appear as creation requests; a buy at 0 and a sell at 2^32-1 (on a grid that contains it) are also placed and rest, and 2^32-1 appears as an off-grid re-price request.", "deterministic simulation: invalid-request fault injection with snapshot comparison", "DESIGN.md §4 C12")
 claim("C13", "Seeded search with the trading switch toggled at arbitrary points (halt = partition, resume = heal), redundant requests and the switch of a single asset's book through Market::get_order_book_mut included; refinement against the reference engine carrying the flag plus model-free clauses (no trade while halted, rejected market orders leave the book untouched, a toggle alone changes nothing).",
       NOTE_COMMON, "deterministic simulation: halt/resume fault injection, refinement + invariants", "DESIGN.md §4 C13")
 
